@@ -46,7 +46,7 @@ def pil_vs_numpy(pil_img, arr, cmyk_expected_inverted=False):
 
 
 def run(ctx: core.Run):
-    gen = extract_c07.gen_pixels(ctx)
+    gen = ctx.regenerate(extract_c07.gen_pixels)
     ctx.prove(["PsdVerif.Props.C07"])
     ctx.trusted_base += [
         "Lean 4.33 kernel; axioms allowed: propext, Classical.choice, Quot.sound (audited per theorem)",
